@@ -5,12 +5,18 @@ MODULES = {
     "C17": "harness.c17_gae",
     "C10": "harness.c10_nstep",
     "C09": "harness.c09_replay",
+    "C11": "harness.c11_per",
 }
 
 TECH = "symbolic execution of the real Python functions on z3-backed proxies (re-execution path exploration); each obligation decided per path by z3 as pc ∧ assumptions ∧ ¬obligation; sat models replayed on the real code"
 NOTE = "trusted: z3, CPython, the SymTensor proxy layer (differentially validated against real torch on every run), the listed stubs (networks/optimisers/RNG as arbitrary values within their contracts); floats are mathematical reals; sizes are the stated small bounds"
 
 CLAIMED = {
+    "C11": {
+        "level_text": "bounded symbolic verification of the real segment trees and PrioritizedReplayBuffer: one arbitrary operation (add of width n, update_priorities with arbitrary indices/priorities incl. repeats and values < 1e-5, sample with arbitrary uniform variates) from an ARBITRARY state satisfying the representation invariant (capacity N<=5(8), symbolic count/leaves/max_priority/alpha/beta) re-establishes the invariant (internal = op(children), root sum/min = direct computation, tree_ptr = cursor), gives new items max_priority^alpha, samples only live indices whose own prefix interval contains the query mass (hence P(i) ∝ p_i^alpha for uniform variates), and returns weights (N·P(i))^-beta / max_j(...) in (0,1]; x**a is an uninterpreted function with positivity/monotonicity axioms",
+        "level_note": NOTE + "; pow as UF (sound for proofs; counterexamples replayed with the real pow); floating-point rounding in retrieve() is outside the real-arithmetic claim",
+        "technique": TECH,
+    },
     "C09": {
         "level_text": "bounded symbolic verification of the real ReplayBuffer.add (one inductive step from an arbitrary ring state with SYMBOLIC count/cursor/size and contents, capacity N<=5(12), batch width n<=N: re-establishes 'row j mod N holds transition j with all its fields for the last min(N,count) transitions, len = that count'), the _init base case, sample() under an arbitrary permutation (stored indices only, no duplicates, fields together, batch not aliased to storage) and the MultiAgentReplayBuffer save/sample path (every field and agent of a sampled row carries the same stored transition; deque keeps the last N)",
         "level_note": NOTE,
@@ -37,4 +43,4 @@ NOT_APPLICABLE = {
 
 # designed in DESIGN.md §5 but the check is not built/registered yet (moves to CLAIMED when it lands)
 PENDING = {pid: "solver-based check designed (DESIGN.md §5) but not yet built in this tree; not claimed until it is"
-           for pid in ["C03", "C04", "C05", "C06", "C08", "C11", "C12", "C13", "C14", "C15", "C16", "C18", "C19"]}
+           for pid in ["C03", "C04", "C05", "C06", "C08", "C12", "C13", "C14", "C15", "C16", "C18", "C19"]}
